@@ -1,12 +1,17 @@
 package main
 
 import (
+	"bytes"
+	"context"
 	"encoding/hex"
 	"fmt"
 	"io"
 	"math"
+	"os"
+	"os/exec"
 	"strconv"
 	"strings"
+	"syscall"
 	"time"
 
 	"github.com/pinealctx/neptune/bytex"
@@ -645,6 +650,7 @@ func (st *state) checkLimitRefusal(w wval, err error) {
 func (st *state) execBuf(f []string) string {
 	b := st.buf
 	if w, ok := parseWrite(f); ok {
+		before := b.Len()
 		_, err, p := call(func() (string, error) { return "", w.apply(b) })
 		if p != nil {
 			st.hit("write:panic", fmt.Sprintf("%s panicked: %v", strings.Join(f, " "), p))
@@ -652,6 +658,9 @@ func (st *state) execBuf(f []string) string {
 		}
 		if err != nil {
 			st.checkLimitRefusal(w, err)
+			if b.Len() != before {
+				st.hit("WriteLimitString:refused-but-wrote", fmt.Sprintf("%s returned %s and yet grew the buffer from %d to %d bytes", w.op, errName(err), before, b.Len()))
+			}
 			return fmt.Sprintf("err:%s len=%d", errName(err), b.Len())
 		}
 		st.pending = append(st.pending, w)
@@ -684,6 +693,26 @@ func (st *state) execBuf(f []string) string {
 			st.pending, st.clean, st.trunc = nil, true, nil
 			return "ok len=0"
 		}
+	case "tostream":
+		// the unread bytes become the content of an io.Reader (chunked as asked) behind a new ReaderX
+		if len(f) != 3 || (f[1] != "0" && f[1] != "1") {
+			break
+		}
+		data := append([]byte{}, b.Bytes()...)
+		chunks, ok := chunking(f[2], data)
+		if !ok {
+			break
+		}
+		st.cr = &chunkReader{chunks: chunks, eager: f[1] == "1"}
+		st.rd = bytex.NewReaderX(st.cr)
+		st.shadow = bytex.NewReadableBufferX(append([]byte{}, data...))
+		st.buf, st.trunc, st.split = nil, nil, false
+		for _, w := range st.pending {
+			if strings.HasPrefix(w.op, "wv") { // ReaderX has no varint readers: nothing to claim beyond this point
+				st.clean = false
+			}
+		}
+		return fmt.Sprintf("ok left=%d", len(data))
 	case "rewrite", "rewriteu32":
 		if len(f) != 3 {
 			break
@@ -734,6 +763,13 @@ func (st *state) execBuf(f []string) string {
 
 // monitorBufRead: (1) values written by typed writes come back from the same typed reads, and the buffer is
 // empty after the last one; (2) a strict prefix of an encoding never yields a value.
+func (st *state) remaining() int {
+	if st.buf != nil {
+		return st.buf.Len()
+	}
+	return len(st.cr.left())
+}
+
 func (st *state) monitorBufRead(r rop, v string, err error) {
 	if st.trunc != nil {
 		w := *st.trunc
@@ -769,12 +805,15 @@ func (st *state) monitorBufRead(r rop, v string, err error) {
 		st.clean = false
 		return
 	}
-	if len(st.pending) == 0 && st.buf.Len() != 0 {
-		st.hit("roundtrip:buffer-not-empty", fmt.Sprintf("all written values were read back but %d bytes are left", st.buf.Len()))
+	if len(st.pending) == 0 && st.remaining() != 0 {
+		st.hit("roundtrip:buffer-not-empty", fmt.Sprintf("all written values were read back but %d bytes are left", st.remaining()))
 	}
 }
 
 func (st *state) execStream(f []string) string {
+	if f[0] == "xrstr" || f[0] == "xrlstr" {
+		return st.execProbe(f)
+	}
 	r, ok := parseRead(f)
 	if !ok || r.varint {
 		return "bad-op"
@@ -792,6 +831,7 @@ func (st *state) execStream(f []string) string {
 		return "panic"
 	}
 	nleft := len(st.cr.left())
+	st.monitorBufRead(r, v, err) // values written before `tostream` come back through the stream as well
 	// monitor: the buffer reader over the same bytes decodes the same
 	if !st.split {
 		sv, serr, sp := call(func() (string, error) { return r.run(st.shadow, st.shadow.ReadU8, st.shadow) })
@@ -822,6 +862,91 @@ func (st *state) execStream(f []string) string {
 		return fmt.Sprintf("err:%s left=%d", errName(err), nleft)
 	}
 	return fmt.Sprintf("v=%s left=%d", v, nleft)
+}
+
+// execProbe (`xrstr`, `xrlstr <limit>`): the string read is executed by the real ReaderX in a CHILD process whose
+// address space is capped at 1 GiB, because a pending length field up to 2^32-1 makes ReadN allocate that much
+// before a single body byte is read. T-observable: the child either answers like the model or dies with the Go
+// runtime's fatal "out of memory" (not an error value, not a recoverable panic). Terminal: the state is dropped.
+func (st *state) execProbe(f []string) string {
+	rd := []string{"rstr"}
+	if f[0] == "xrlstr" {
+		rd = []string{"rlstr"}
+		rd = append(rd, f[1:]...)
+	} else if len(f) != 1 {
+		return "bad-op"
+	}
+	r, ok := parseRead(rd)
+	if !ok {
+		return "bad-op"
+	}
+	var parts []string
+	for _, c := range st.cr.chunks {
+		parts = append(parts, showRawHex(c))
+	}
+	chunks := "."
+	if len(parts) > 0 {
+		chunks = strings.Join(parts, ",")
+	}
+	eager := "0"
+	if st.cr.eager {
+		eager = "1"
+	}
+	hits := st.hits
+	*st = state{hits: hits}
+	exe, err := os.Executable()
+	if err != nil {
+		return "probe-failed:" + err.Error()
+	}
+	ctx, cancel := context.WithTimeout(context.Background(), 60*time.Second)
+	defer cancel()
+	cmd := exec.CommandContext(ctx, exe, "child", eager, chunks, r.name)
+	var out, errb bytes.Buffer
+	cmd.Stdout, cmd.Stderr = &out, &errb
+	runErr := cmd.Run()
+	switch {
+	case ctx.Err() != nil:
+		return "fatal:timeout"
+	case runErr == nil:
+		return strings.TrimSpace(out.String())
+	case strings.Contains(errb.String(), "out of memory") || strings.Contains(errb.String(), "cannot allocate memory"):
+		return "fatal:out-of-memory"
+	}
+	return "fatal:other"
+}
+
+func showRawHex(b []byte) string {
+	if len(b) == 0 {
+		return "-"
+	}
+	return hex.EncodeToString(b)
+}
+
+// child is the body of the capped child process: `c10 child <eager> <chunks> <read op>`.
+func child(args []string) {
+	if len(args) < 3 {
+		os.Exit(3)
+	}
+	lim := syscall.Rlimit{Cur: 1 << 30, Max: 1 << 30}
+	if err := syscall.Setrlimit(syscall.RLIMIT_AS, &lim); err != nil {
+		fmt.Println("probe-failed:setrlimit")
+		return
+	}
+	st := &state{}
+	st.exec("sload " + args[0] + " " + args[1])
+	if st.rd == nil {
+		os.Exit(3)
+	}
+	r, ok := parseRead(strings.Fields(args[2]))
+	if !ok {
+		os.Exit(3)
+	}
+	v, err := r.run(st.rd, st.rd.ReadByte, nil)
+	if err != nil {
+		fmt.Printf("err:%s left=%d\n", errName(err), len(st.cr.left()))
+		return
+	}
+	fmt.Printf("v=%s left=%d\n", v, len(st.cr.left()))
 }
 
 // runCase executes a script; a hang (there is none in today's code) is cut after 20 s.
